@@ -557,3 +557,71 @@ k_c14_chunk!(k_c14_chunk_u16_u32_p8, u16, u32, u8, 8, 4, 4);
 k_c14_chunk!(k_c14_chunk_u16_u32_p16, u16, u32, u16, 16, 3, 4);
 k_c14_chunk!(k_c14_chunk_u32_u64_p16, u32, u64, u16, 16, 4, 4);
 k_c14_chunk!(k_c14_chunk_u32_u64_p32, u32, u64, u32, 32, 3, 4);
+
+/// C13 `c13_step2`: two decodes then two encodes (reverse order) from ANY `Inv_chain` heads and any two data
+/// words: observational form of the step obligation (does not rely on the invariant being re-established
+/// between the steps; a head left exactly on a threshold by the first step is exercised by the second).
+macro_rules! k_c13_step2 {
+    ($name:ident, $W:ty, $S:ty, $Pr:ty, $P:expr) => {
+        #[no_mangle]
+        pub extern "C" fn $name(ch: $W, rh: $S, w0: $W, w1: $W, c1: $Pr, c2: $Pr, d1: $Pr, d2: $Pr) -> u32 {
+            if ch == 0 {
+                return 1;
+            }
+            if !inv_chain!($W, $S, $P, rh) {
+                return 1;
+            }
+            let ma = Cuts::<$Pr, $P> { c1, c2 };
+            let mb = Cuts::<$Pr, $P> { c1: d1, c2: d2 };
+            if !ma.valid() || !mb.valid() {
+                return 1;
+            }
+            let mut words = [<$W>::MAX; 8];
+            words[0] = w0;
+            words[1] = w1;
+            let data = ArrStack::<$W, 8> { words, len: 8 };
+            let mut coder = match CC::<$W, $S, $P>::from_binary(data) {
+                Ok(c) => c,
+                Err(_) => return 1,
+            };
+            let heads = ChainCoderHeads::<$W, $S, $P>::from_raw_parts(<$W as BitArray>::into_nonzero(ch).unwrap(), rh);
+            if coder.seek((BackendPosition { compressed: 2usize, remainders: 0usize }, heads)).is_err() {
+                return 1;
+            }
+            let sa = match coder.decode_symbol(ma) {
+                Ok(s) => s,
+                Err(_) => return 3,
+            };
+            let sb = match coder.decode_symbol(mb) {
+                Ok(s) => s,
+                Err(_) => return 3,
+            };
+            if coder.encode_symbol(sb, mb).is_err() {
+                return 2;
+            }
+            if coder.encode_symbol(sa, ma).is_err() {
+                return 2;
+            }
+            let (pos, h) = coder.pos();
+            let (ch2, rh2) = h.into_raw_parts();
+            if ch2.get() != ch || rh2 != rh {
+                return 5;
+            }
+            if pos.compressed != 2 || pos.remainders != 0 {
+                return 7;
+            }
+            let (comp, _rem) = match coder.into_remainders() {
+                Ok(x) => x,
+                Err(_) => return 9,
+            };
+            if comp.words[0] != w0 || comp.words[1] != w1 {
+                return 8;
+            }
+            0
+        }
+    };
+}
+k_c13_step2!(k_c13_step2_u8_u16_p4, u8, u16, u8, 4);
+k_c13_step2!(k_c13_step2_u8_u16_p8, u8, u16, u8, 8);
+k_c13_step2!(k_c13_step2_u16_u32_p12, u16, u32, u16, 12);
+k_c13_step2!(k_c13_step2_u32_u64_p24, u32, u64, u32, 24);
